@@ -138,6 +138,27 @@ theorem rateFee_progress {r g : Dec} {gross due : Nat} (hrs : r.scale ≤ 28)
   simp only [Option.some.injEq] at this
   rw [this]; exact hok
 
+theorem maybeRound_sign {m s : Nat} {c : Char} {point neg : Bool} {d : Dec}
+    (h : maybeRound m s c point neg = .ok d) (hn : d.neg = true) : d.mant ≠ 0 := by
+  unfold maybeRound at h
+  cases hd : roundDigit c point with
+  | none => simp [hd] at h
+  | some dg =>
+    simp only [hd] at h
+    by_cases h1 : (if dg ≥ 5 then m + 1 else m) ≥ LIM
+    · simp only [h1, if_true] at h
+      by_cases hs : s = 0
+      · simp [hs] at h
+      · simp only [hs, if_false, Parsed.ok.injEq] at h
+        subst h
+        simp only
+        unfold LIM at h1
+        omega
+    · simp only [h1, if_false, Parsed.ok.injEq] at h
+      subst h
+      simp only [Bool.and_eq_true, bne_iff_ne, ne_eq] at hn
+      exact hn.2
+
 theorem parseGo_sign : ∀ (cs : List Char) (m s : Nat) (point has neg : Bool) (d : Dec),
     parseGo cs m s point has neg = .ok d → d.neg = true → d.mant ≠ 0 := by
   intro cs
@@ -157,12 +178,23 @@ theorem parseGo_sign : ∀ (cs : List Char) (m s : Nat) (point has neg : Bool) (
     by_cases hd : c.isDigit = true
     · simp only [hd, if_true] at h
       by_cases hov : m * 10 + (c.toNat - 48) ≥ LIM
-      · simp only [hov, if_true] at h; split at h <;> cases h
+      · simp only [hov, if_true] at h
+        by_cases hp : point = true
+        · simp only [hp, if_true] at h
+          exact maybeRound_sign h hn
+        · simp [hp] at h
       · simp only [hov, if_false] at h
-        by_cases hu : (point && decide ((if point = true then s + 1 else 0) ≥ 28) && !rest.isEmpty) = true
-        · simp only [hu, if_true] at h; cases h
-        · simp only [hu] at h
+        cases rest with
+        | nil =>
+          simp only at h
           exact ih _ _ _ _ _ _ h hn
+        | cons nxt tl =>
+          simp only at h
+          by_cases hu : (point && decide ((if point = true then s + 1 else 0) ≥ 28)) = true
+          · simp only [hu, if_true] at h
+            exact maybeRound_sign h hn
+          · simp only [hu] at h
+            exact ih _ _ _ _ _ _ h hn
     · simp only [hd] at h
       by_cases hdot : c = '.'
       · simp only [hdot, if_true] at h
